@@ -115,69 +115,33 @@ TEXT_SINKS = {'free', 'strdup', 'fprintf', 'vfprintf', 'snprintf', 'vsnprintf', 
 def position_is_text_only(c, chk, rid='R8.13'):
     """R8.13: the file name a context remembers (cfg->filename) survives from one parse to the next - a stream or buffer parse does
     not even replace it.  It is the text diagnostics begin with, and it is saved, restored and handed to sections; nothing is ever
-    *decided* by it and no other name is computed from it (def-use over the IR of both units: a value loaded from `filename` of a
-    context flows only into stores, NULL tests, free(), strdup() and the message formatters)"""
-    chk.rule(rid, 'the remembered file name is diagnostic text only: a value loaded from cfg->filename flows into stores, NULL tests, free(), strdup() and message formatters, nothing else')
+    *decided* by it and no other name is computed from it.  Paths of the parse entry points and of the include function (helpers
+    analysed as part of them): the name found in the context *on entry* reaches only stores, NULL tests, free(), strdup() and the
+    message formatters - never a string inspector, an opener or the name resolution"""
+    chk.rule(rid, 'the file name found in the context on entry is diagnostic text only: the parse entry points and the include function hand it to free(), strdup() and message formatters, nothing else')
+    ex = sym.Explorer(c.modules, max_visits=2, mod_sets=c.mod_sets, max_paths=50000)
     n = 0
     bad = None
-    for f in c.all_funcs():
-        if c.where(f).startswith('<generated>'):
-            continue
-        mod = f.module
-        seeds = set()
-        for ins in f.instrs():
-            if ins.op == 'load' and ins.ops[0].kind == 'reg':
-                d = f.defs.get(ins.ops[0].name)
-                if d is not None and d.op == 'getelementptr' and (d.srcty or '').strip() == '%struct.cfg_t' and len(d.ops) >= 3 and d.ops[2].kind == 'int' \
-                        and mod.field_name('%struct.cfg_t', d.ops[2].ival) == 'filename':
-                    # (a name this function has just installed itself is this parse's own name, not a remembered one)
-                    own = False
-                    for st in f.instrs():
-                        if st.op == 'store' and st.ops[1].kind == 'reg':
-                            d2 = f.defs.get(st.ops[1].name)
-                            if d2 is not None and d2.op == 'getelementptr' and (d2.srcty or '').strip() == '%struct.cfg_t' and len(d2.ops) >= 3 and d2.ops[2].kind == 'int' \
-                                    and mod.field_name('%struct.cfg_t', d2.ops[2].ival) == 'filename' and d2.ops[0].name == d.ops[0].name and _cfg.instr_dominates(f, st, ins):
-                                own = True
-                    if not own:
-                        seeds.add(ins.res)
-        if not seeds:
-            continue
-        t = set(seeds)
-        changed = True
-        while changed:
-            changed = False
-            for ins in f.instrs():
-                if ins.res is None or ins.res in t:
+
+    def remembered(v):
+        return v[0] == 'ld' and len(v) > 2 and v[2] == (0, 0) and v[1][0] == 'fld' and v[1][2] == 'cfg_t' and v[1][3] == 'filename' and sym.root_of(v[1])[0] == 'p'
+    for name in ('cfg_parse', 'cfg_parse_buf', 'cfg_parse_fp', 'cfg_lexer_include'):
+        f = c.need(name)
+        for p in ex.explore(f):
+            for e in p.events:
+                if e.kind != 'call':
                     continue
-                if ins.op in ('bitcast', 'phi', 'select'):
-                    vals = [v for v, _ in ins.incoming] if ins.op == 'phi' else ins.ops
-                    if any(v.kind == 'reg' and v.name in t for v in vals):
-                        t.add(ins.res)
-                        changed = True
-        for ins in f.instrs():
-            used = [k for k, v in enumerate(ins.args if ins.op == 'call' else ins.ops) if v is not None and v.kind == 'reg' and v.name in t]
-            if not used or ins.is_dbg():
-                continue
-            n += 1
-            ok = False
-            if ins.op in ('bitcast', 'phi', 'select', 'ret'):
-                ok = True
-            elif ins.op == 'store':
-                ok = used == [0]
-            elif ins.op == 'icmp':
-                ok = any(v.kind == 'null' or (v.kind == 'int' and v.ival == 0) for v in ins.ops)
-            elif ins.op == 'call':
-                ok = (ins.callee_name() in TEXT_SINKS)
-            if not ok and bad is None:
-                bad = (f, ins)
+                if any(sym.mentions(a_, remembered) for a_ in e.args):
+                    n += 1
+                    if e.name not in TEXT_SINKS and not e.inlined and bad is None:
+                        bad = (f, e)
     if bad is not None:
-        f, ins = bad
-        what = ins.callee_name() + '()' if ins.op == 'call' and ins.callee_name() else ins.op
-        chk.fail(rid, 'filename-decides:%s' % f.name, c.where(ins), '%s() feeds the file name the context remembers into %s: what the parse does then depends on which file an earlier parse of '
-                 'this context read last (a stream or buffer parse keeps the old name)' % (f.name, what))
+        f, e = bad
+        chk.fail(rid, 'filename-decides:%s' % f.name, c.where(e.ins), '%s() feeds the file name it finds in the context into %s(): what the parse does then depends on which file an earlier parse of '
+                 'this context read last (a stream or buffer parse keeps the old name)' % (f.name, e.name))
     else:
-        chk.ok(rid, '%d uses of cfg->filename in hand-written code' % n, 'stores, NULL tests, free(), strdup() and message formatting only')
-    chk.floor('%s uses of cfg->filename' % rid, n, 4)
+        chk.ok(rid, '%d calls that receive the remembered file name on the paths of the parse entry points and the include function' % n, 'free(), strdup() and message formatting only')
+    chk.floor('%s calls receiving the remembered file name' % rid, n, 1)
 
 
 def classified_globals(c, chk, rid='R8.0', rid5='R8.5'):
